@@ -244,6 +244,12 @@ class Ctx(object):
         return tuple(sh)
 
     # ------------------------------------------------------------------ building arrays
+    def under(self, opts):
+        """global dimarray options in force while the harness builds its arrays and calls the operation (the worker restores the
+        options after every run)"""
+        for k, v in (opts or {}).items():
+            self.da.set_option(k, v)
+
     def nparray(self, cells, shape=None, kind=None):
         np = self.np
         dt = {None: None, 'f': float, 'i': int, 'b': bool, 'O': object, 'U': None}[kind]
